@@ -365,6 +365,50 @@ def oracle_profile(chk, which, p, o):
     return n
 
 
+TD_HEADER = """From Coq Require Import ZArith QArith List Bool.
+From GHE Require Import Base.QUtil gen.Src Proof.TwoDayP.
+Import ListNotations. Open Scope Q_scope.
+Fixpoint leq (a b : list Q) : bool := match a, b with [], [] => true | x :: a', y :: b' => qeqb x y && leq a' b' | _, _ => false end.
+Fixpoint lleq (a b : list (list Q)) : bool := match a, b with [], [] => true | x :: a', y :: b' => leq x y && lleq a' b' | _, _ => false end.
+"""
+
+
+def two_day_checks(chk, profs, outs):
+    """the 48-hour window of every month's peak day: (1) the implementation's windows against the statement of
+    C07_two_day_window_ends_on_the_peak_day_* (day before + peak day, year wrapping), (2) the REGENERATED process_two_day_loads
+    evaluated in Coq on a real year of loads against the implementation's windows (translation validation)"""
+    done = 0
+    for p, o in zip(profs, outs):
+        if not o.get("ok") or "rej" not in o:
+            continue
+        for m in range(1, 13):
+            for series, wins_, days, nm in ((o["rej"], o["two_day_cl"], o["daycl"], "rejection"), (o["ext"], o["two_day_hl"], o["dayhl"], "extraction")):
+                want = two_day_window(series, m - 1, days[m])
+                chk.cov["evaluations"] += 1
+                if list(wins_[m]) != want and len(chk.violations) < 4:
+                    bad = next((j for j in range(min(len(want), len(wins_[m]))) if wins_[m][j] != want[j]), None)
+                    chk.violation("hybrid-profile", p, {"month": m, "dir": nm, "peak_day_index": days[m], "window_hours": len(wins_[m]), "first_difference_at_hour": bad},
+                                  "the two-day window is the day before the peak day followed by the peak day (48 hours, the year wrapping around for 1 January)")
+        if done == 0 and getattr(chk, "model_ok", False):
+            done = 1
+            txt = TD_HEADER + f"""Definition rej : list Q := {qlist(o['rej'])}.
+Definition ext : list Q := {qlist(o['ext'])}.
+Definition dc : list Q := {qlist(o['daycl'][:13])}.
+Definition dh : list Q := {qlist(o['dayhl'][:13])}.
+Definition wc : list (list Q) := [{'; '.join(qlist(w) for w in o['two_day_cl'][:13])}].
+Definition wh : list (list Q) := [{'; '.join(qlist(w) for w in o['two_day_hl'][:13])}].
+Eval vm_compute in (let '(a, b) := process_two_day_loads rej ext cal dc dh [[0]] [[0]] in (lleq a wc, lleq b wh)).
+"""
+            rc, out, err = chk.coq_eval("twoday", txt, timeout=900)
+            flat = " ".join(out.split())
+            if rc != 0 or "(true, true)" not in flat:
+                chk.broken.append({"name": "translation validation C07: the regenerated process_two_day_loads differs from the real method on a real year of loads",
+                                   "detail": (err or flat)[-300:]})
+            else:
+                chk.cov["traces_validated_against_impl"] = chk.cov.get("traces_validated_against_impl", 0) + 24
+                chk.cov["correspondence_cases"] = chk.cov.get("correspondence_cases", 0) + 24
+
+
 def run_hybrid_check(chk, which, props_file, extra_models):
     quick = chk.tier == "quick"
     chk.build(props_file, extra=["Model/Hybrid"] + extra_models)
@@ -409,6 +453,8 @@ def run_hybrid_check(chk, which, props_file, extra_models):
         if len(chk.violations) >= 4:
             break
         nontrivial += oracle_profile(chk, which, p, o)
+    if which == "C07":
+        two_day_checks(chk, profs, res["profiles"])
     # listed findings are re-run on their exact input
     for kf in chk.open_findings("hybrid-profile"):
         r = run_impl("hybrid.py", {"profiles": [kf["input"]]})
